@@ -18,6 +18,7 @@ import (
 	"context"
 	"encoding/hex"
 	"net"
+	"sync"
 
 	"github.com/honeytrap/honeytrap/event"
 	"github.com/honeytrap/honeytrap/pushers"
@@ -49,6 +50,8 @@ type tftpService struct {
 
 	limiter *Limiter
 
+	// buffers is shared by the handlers of all datagrams: guarded by m
+	m       sync.Mutex
 	buffers map[string]*tftpFile
 }
 
@@ -148,7 +151,10 @@ func (s *tftpService) Handle(ctx context.Context, conn net.Conn) error {
 		}
 		conn.Write(message)
 		addr := conn.RemoteAddr().String()
+
+		s.m.Lock()
 		s.buffers[addr] = &tftpFile{filename: filename, mode: mode}
+		s.m.Unlock()
 	case DATA:
 		blkNum := make([]byte, 2)
 		if _, err := b.Read(blkNum); err != nil {
@@ -162,6 +168,10 @@ func (s *tftpService) Handle(ctx context.Context, conn net.Conn) error {
 			return err
 		}
 		addr := conn.RemoteAddr().String()
+
+		s.m.Lock()
+		defer s.m.Unlock()
+
 		if _, ok := s.buffers[addr]; !ok {
 			log.Error("DATA packet with no matching buffer!")
 			message := []byte{0x00, byte(ERROR), 0x00, 0x04, 0x00}
